@@ -62,7 +62,7 @@ class Crash(BaseException):
 def scratch():
     if _S.get("pid") != os.getpid():
         _S.clear()
-        _S["dir"] = tempfile.mkdtemp(prefix="verif-c14-", dir="/dev/shm" if os.path.isdir("/dev/shm") else None)
+        _S["dir"] = tempfile.mkdtemp(prefix="verif-c14-")
         _S["pid"] = os.getpid()
         _S["n"] = 0
         import atexit
